@@ -20,6 +20,38 @@ def sh(cmd, cwd=None, env=None, timeout=7200):
     return p.returncode, p.stdout + p.stderr
 
 
+def evaluate(sid, seeds=(1,), tier="quick", checks=None):
+    """Returns a list of {seed, exit, classes} per check run, or a string on failure."""
+    d = os.path.join(VERIF, "seeded", sid)
+    prop = json.load(open(os.path.join(d, "meta.json")))["property"]
+    base = tempfile.mkdtemp(prefix="seediso-")
+    repo, verif = os.path.join(base, "repo"), os.path.join(base, "verif")
+    try:
+        rc, out = sh("git worktree add -q --detach %s HEAD" % repo, REPO)
+        assert rc == 0, out
+        rc, out = sh("git apply %s" % os.path.join(d, "patch.diff"), repo)
+        if rc != 0:
+            return "patch does not apply: " + out[-200:]
+        # the working tree of /verif (not only HEAD): what is being developed
+        sh("rsync -a --exclude .git --exclude found --exclude scratch %s/ %s/" % (VERIF, verif))
+        for f in ["harness/go.mod", "harness/c05gen/c05_test.go", "harness/c18idl/fuzz_test.go", "harness/c07total/c07_test.go"]:
+            p = os.path.join(verif, f)
+            s = open(p).read().replace("=> /repo", "=> " + repo).replace('"/repo/', '"' + repo + '/')
+            open(p, "w").write(s)
+        hits = []
+        for c in (checks or [prop]):
+            for s in seeds:
+                env = dict(os.environ, VERIF_SEED=str(s), VERIF_REPO=repo)
+                p = subprocess.run(["./vcheck", c, tier], cwd=verif, env=env, capture_output=True, text=True, timeout=7200)
+                lines = [l for l in p.stdout.splitlines() if "violation class=" in l]
+                cls = [l.split("violation class=")[1].split(" ")[0] for l in lines]
+                hits.append({"check": c, "seed": s, "exit": p.returncode, "classes": cls[:3], "lines": [l[:300] for l in lines[:3]]})
+        return hits
+    finally:
+        sh("git worktree remove --force %s" % repo, REPO)
+        shutil.rmtree(base, ignore_errors=True)
+
+
 def main():
     args = sys.argv[1:]
     seeds, tier, ids = [1], "quick", []
@@ -31,36 +63,12 @@ def main():
             tier = args.pop(0)
         else:
             ids.append(a)
-    results = {}
     for sid in ids:
-        d = os.path.join(VERIF, "seeded", sid)
-        prop = json.load(open(os.path.join(d, "meta.json")))["property"]
-        base = tempfile.mkdtemp(prefix="seediso-")
-        repo, verif = os.path.join(base, "repo"), os.path.join(base, "verif")
-        try:
-            rc, out = sh("git worktree add -q --detach %s HEAD" % repo, REPO)
-            assert rc == 0, out
-            rc, out = sh("git apply %s" % os.path.join(d, "patch.diff"), repo)
-            if rc != 0:
-                results[sid] = "patch does not apply: " + out[-200:]
-                continue
-            # the working tree of /verif (not only HEAD): what is being developed
-            sh("rsync -a --exclude .git --exclude found --exclude scratch %s/ %s/" % (VERIF, verif))
-            for f in ["harness/go.mod", "harness/c05gen/c05_test.go", "harness/c18idl/fuzz_test.go", "harness/c07total/c07_test.go"]:
-                p = os.path.join(verif, f)
-                s = open(p).read().replace("=> /repo", "=> " + repo).replace('"/repo/', '"' + repo + '/')
-                open(p, "w").write(s)
-            hits = []
-            for s in seeds:
-                env = dict(os.environ, VERIF_SEED=str(s), VERIF_REPO=repo)
-                p = subprocess.run(["./vcheck", prop, tier], cwd=verif, env=env, capture_output=True, text=True, timeout=7200)
-                cls = [l.split("violation class=")[1].split(" ")[0] for l in p.stdout.splitlines() if "violation class=" in l]
-                hits.append({"seed": s, "exit": p.returncode, "classes": cls[:3]})
-            results[sid] = hits
-            print(sid, json.dumps(hits), flush=True)
-        finally:
-            sh("git worktree remove --force %s" % repo, REPO)
-            shutil.rmtree(base, ignore_errors=True)
+        hits = evaluate(sid, seeds, tier)
+        if isinstance(hits, str):
+            print(sid, hits, flush=True)
+        else:
+            print(sid, json.dumps([{k: h[k] for k in ("seed", "exit", "classes")} for h in hits]), flush=True)
     return 0
 
 
